@@ -95,6 +95,8 @@ ElemNumber::ElemNumber(
     m_id(id)
     
 {
+    m_cacheCounts = true;
+
     const XalanSize_t  nAttrs = atts.getLength();
 
     for (XalanSize_t i = 0; i < nAttrs; i++)
@@ -130,9 +132,19 @@ ElemNumber::ElemNumber(
         else if (equals(aname, Constants::ATTRNAME_COUNT))
         {
             m_countMatchPattern = constructionContext.createMatchPattern(getLocator(), atts.getValue(i), *this);
+
+            if (indexOf(atts.getValue(i), XalanUnicode::charDollarSign) < length(atts.getValue(i)))
+            {
+                m_cacheCounts = false;
+            }
         }
         else if (equals(aname, Constants::ATTRNAME_FROM))
         {
+            if (indexOf(atts.getValue(i), XalanUnicode::charDollarSign) < length(atts.getValue(i)))
+            {
+                m_cacheCounts = false;
+            }
+
             m_fromMatchPattern = constructionContext.createMatchPattern(getLocator(), atts.getValue(i), *this);
         }
         else if (equals(aname, Constants::ATTRNAME_VALUE))
@@ -509,6 +521,35 @@ ElemNumber::getCountMatchPattern(
 
 
 
+ElemNumber::CountType
+ElemNumber::countNode(
+            StylesheetExecutionContext&     executionContext,
+            CountersTable&                  ctable,
+            XalanNode*                      node) const
+{
+    if (m_cacheCounts == true)
+    {
+        return ctable.countNode(executionContext, *this, node);
+    }
+    else
+    {
+        // Count again every time, the way the counters table
+        // does when it has nothing in its cache.
+        CountType   count = 0;
+
+        for (XalanNode* target = getTargetNode(executionContext, node);
+                target != 0;
+                    target = getPreviousNode(executionContext, target))
+        {
+            ++count;
+        }
+
+        return count;
+    }
+}
+
+
+
 inline void
 ElemNumber::getCountString(
             StylesheetExecutionContext&     executionContext,
@@ -522,9 +563,9 @@ ElemNumber::getCountString(
     {
         XalanNode* const target = ancestors.item(numberListLength - i - 1);
 
-        numberList[i] = ctable.countNode(
+        numberList[i] = countNode(
                             executionContext,
-                            *this,
+                            ctable,
                             target);
     }
 
@@ -582,7 +623,7 @@ ElemNumber::getCountString(
         if (eAny == m_level)
         {
             const CountType     theNumber =
-                ctable.countNode(executionContext, *this, sourceNode);
+                countNode(executionContext, ctable, sourceNode);
 
             if (theNumber != 0)
             {
